@@ -405,6 +405,23 @@ where
     }
 }
 
+#[cfg(pearl_verif)]
+impl<K> Blob<K>
+where
+    for<'a> K: Key<'a> + 'static,
+{
+    pub(crate) fn verif_state(&self, active: bool) -> crate::verif::BlobState {
+        crate::verif::BlobState {
+            id: self.id(),
+            active,
+            index_on_disk: self.index.on_disk(),
+            records: self.records_count(),
+            file_size: self.file_size(),
+            dirty: self.file_dirty_bytes(),
+        }
+    }
+}
+
 
 struct RawRecords {
     current_offset: u64,
